@@ -1236,6 +1236,8 @@ class VM:
                 acc = arr._elements[0]
                 start_idx = 1
             for i in range(start_idx, len(arr._elements)):
+                if i >= len(arr._elements):
+                    break  # the callback shortened the array
                 elem = arr._elements[i]
                 acc = vm._call_callback(callback, [acc, elem, i, arr])
             return acc
@@ -1254,6 +1256,8 @@ class VM:
                 acc = arr._elements[length - 1]
                 start_idx = length - 2
             for i in range(start_idx, -1, -1):
+                if i >= len(arr._elements):
+                    continue  # the callback shortened the array
                 elem = arr._elements[i]
                 acc = vm._call_callback(callback, [acc, elem, i, arr])
             return acc
